@@ -9,9 +9,12 @@
 (***************************************************************************)
 EXTENDS RebalancerE2E, TraceBase
 
-VARIABLES l, scn, cfg, now, srv, ms, timer, gh, bad, drift, nev,
+VARIABLES l, scn, cfg, now, srv, ms, timer, gh, bad, drift, nev, loose,
           aux     \* the model's step, computed once per event (TLC re-evaluates a LET for every primed conjunct otherwise)
-vars == <<l, scn, cfg, now, srv, ms, timer, gh, bad, drift, nev, aux>>
+vars == <<l, scn, cfg, now, srv, ms, timer, gh, bad, drift, nev, aux, loose>>
+(* loose: after a rating exactly on the threshold the model does not know which branch the code took, hence not whether it *)
+(* re-armed its back-off timer; until the weights are next seen to change (which re-arms it for certain) or an            *)
+(* administration call resets everything, the model follows the observed weights and nothing is judged                   *)
 Ev == Log[l]
 IsEvent(e) == l <= Len(Log) /\ Log[l].e = e /\ l' = l + 1
 
@@ -21,14 +24,14 @@ ModelW(s) == [k \in {s[i].k : i \in 1..Len(s)} |-> s[CHOOSE i \in 1..Len(s) : s[
 OrigW(s) == [k \in {s[i].k : i \in 1..Len(s)} |-> s[CHOOSE i \in 1..Len(s) : s[i].k = k].orig]
 
 Init == /\ l = 1 /\ scn = "" /\ cfg = [tps |-> 1, backoff |-> 1, cap |-> 4096] /\ now = 0
-        /\ srv = <<>> /\ ms = <<>> /\ timer = -1 /\ gh = Ghost0 /\ bad = <<>> /\ drift = <<>> /\ nev = 0 /\ aux = <<>>
+        /\ srv = <<>> /\ ms = <<>> /\ timer = -1 /\ gh = Ghost0 /\ bad = <<>> /\ drift = <<>> /\ nev = 0 /\ aux = <<>> /\ loose = FALSE
 
 Reset == /\ IsEvent("Reset") /\ scn' = Ev.scn /\ cfg' = Ev.cfg /\ now' = 0
          /\ srv' = <<>> /\ ms' = <<>> /\ timer' = -1 /\ gh' = Ghost0
-         /\ UNCHANGED <<bad, drift, aux>> /\ nev' = nev + 1
+         /\ loose' = FALSE /\ UNCHANGED <<bad, drift, aux>> /\ nev' = nev + 1
 
 Adv == /\ IsEvent("Adv") /\ now' = now + Ev.d
-       /\ UNCHANGED <<scn, cfg, srv, ms, timer, gh, bad, drift, aux>> /\ nev' = nev + 1
+       /\ UNCHANGED <<scn, cfg, srv, ms, timer, gh, bad, drift, aux, loose>> /\ nev' = nev + 1
 
 Upsert ==
   /\ IsEvent("Upsert")
@@ -41,7 +44,7 @@ Upsert ==
         /\ gh' = IF Ev.err THEN gh ELSE ga.ghost
         /\ bad' = IF Ev.err THEN bad ELSE ReportAll(bad, scn, l, << <<ga.viol = {}, "X02.AdminRestoresConfigured">> >>)
         /\ drift' = IF ObsW(Ev.weights) = ModelW(s2) THEN drift ELSE Report(drift, scn, l, "rb.UpsertServer")
-  /\ UNCHANGED <<scn, cfg, now, aux>> /\ nev' = nev + 1
+  /\ loose' = (loose /\ Ev.err) /\ UNCHANGED <<scn, cfg, now, aux>> /\ nev' = nev + 1
 
 Remove ==
   /\ IsEvent("Remove")
@@ -55,7 +58,7 @@ Remove ==
         /\ bad' = ReportAll(bad, scn, l, << <<Ev.err = (i = 0), "X02.RemoveUnknownFails">>,
                                              <<(Ev.err \/ i = 0) \/ ga.viol = {}, "X02.AdminRestoresConfigured">> >>)
         /\ drift' = IF ObsW(Ev.weights) = ModelW(s2) THEN drift ELSE Report(drift, scn, l, "rb.RemoveServer")
-  /\ UNCHANGED <<scn, cfg, now, aux>> /\ nev' = nev + 1
+  /\ loose' = (loose /\ (Ev.err \/ FindSrv(srv, Ev.k) = 0)) /\ UNCHANGED <<scn, cfg, now, aux>> /\ nev' = nev + 1
 
 Req ==
   /\ IsEvent("Req")
@@ -71,12 +74,13 @@ Req ==
   /\ LET a == aux' IN
      IF ~a.member
           THEN /\ bad' = ReportAll(bad, scn, l, << <<FALSE, "X02.ServedByMember">> >>)
-               /\ UNCHANGED <<srv, ms, timer, gh, drift>>
-        ELSE IF a.tie      \* a rating exactly on the outlier threshold: follow the code, judge nothing
+               /\ UNCHANGED <<srv, ms, timer, gh, drift, loose>>
+        ELSE IF a.tie \/ loose   \* a rating exactly on the outlier threshold (or its aftermath): follow the code, judge nothing
           THEN /\ srv' = [j \in 1..Len(srv) |-> [srv[j] EXCEPT !.cur = a.obs[srv[j].k]]]
                /\ ms' = a.ms
                /\ timer' = IF a.obs # ModelW(srv) THEN now + cfg.backoff ELSE timer
-               /\ gh' = [a.ghost EXCEPT !.conv = 0, !.out = <<>>]
+               /\ loose' = (a.obs = ModelW(srv))          \* a visible change re-arms the timer for certain
+               /\ gh' = [a.ghost EXCEPT !.conv = 0, !.out = <<>>, !.lastAdj = IF a.obs # ModelW(srv) THEN now ELSE NoTime]
                /\ UNCHANGED <<bad, drift>>
         ELSE /\ srv' = a.srv /\ ms' = a.ms /\ timer' = a.timer
              /\ gh' = a.ghost
@@ -88,17 +92,18 @@ Req ==
                              <<"C10.ConvergesWithinSix" \notin a.viol, "X02.ConvergesWithinSix">>,
                              <<"C10.NoAdjustmentUnlessReady" \notin a.viol, "X02.NoAdjustmentUnlessReady">> >>)
              /\ drift' = IF a.obs = ModelW(a.srv) THEN drift ELSE Report(drift, scn, l, "rb.recordMetrics+adjustWeights")
+             /\ loose' = FALSE
   /\ UNCHANGED <<scn, cfg, now>> /\ nev' = nev + 1
 
 NoServe ==
   /\ IsEvent("NoServe")
   /\ bad' = ReportAll(bad, scn, l, << <<~\E j \in 1..Len(srv) : srv[j].cur > 0, "X02.ServableNeverRefused">>,
                                       <<Ev.status >= 500, "X02.ErrorResponseWhenUnservable">> >>)
-  /\ UNCHANGED <<scn, cfg, now, srv, ms, timer, gh, drift, aux>> /\ nev' = nev + 1
+  /\ UNCHANGED <<scn, cfg, now, srv, ms, timer, gh, drift, aux, loose>> /\ nev' = nev + 1
 
 End == /\ IsEvent("End")
        /\ JsonSerialize("result.json", [bad |-> bad, drift |-> drift, events |-> nev, lines |-> l])
-       /\ UNCHANGED <<scn, cfg, now, srv, ms, timer, gh, bad, drift, nev, aux>>
+       /\ UNCHANGED <<scn, cfg, now, srv, ms, timer, gh, bad, drift, nev, aux, loose>>
 Next == Reset \/ Adv \/ Upsert \/ Remove \/ Req \/ NoServe \/ End
 Spec == Init /\ [][Next]_vars
 =============================================================================
